@@ -949,27 +949,39 @@ func widens(from, to reflect.Type) bool {
 // formed from the request. reflect.Value.Call panics otherwise.
 func checkReflectArgs(method *reflect.Value, args []reflect.Value) error {
 	mt := method.Type()
+	// The type of parameter i, the parameters of a variadic method past the
+	// fixed ones have the type of the members of the last.
+	fixed := mt.NumIn()
+	in := mt.In
 	if mt.IsVariadic() {
-		return nil
-	}
-	if mt.NumIn() != len(args) {
+		fixed--
+		in = func(i int) reflect.Type {
+			if i < fixed {
+				return mt.In(i)
+			}
+			return mt.In(fixed).Elem()
+		}
+		if len(args) < fixed {
+			return fmt.Errorf("takes at least %d arguments, %d given", fixed-1, len(args)-1)
+		}
+	} else if fixed != len(args) {
 		return fmt.Errorf("takes %d arguments, %d given", mt.NumIn()-1, len(args)-1)
 	}
 	for i, a := range args {
 		if !a.IsValid() {
 			// An optional argument that was not given or is null, a
 			// required one was reported when the arguments were formed.
-			args[i] = reflect.Zero(mt.In(i))
+			args[i] = reflect.Zero(in(i))
 			continue
 		}
-		if !a.Type().AssignableTo(mt.In(i)) {
+		if !a.Type().AssignableTo(in(i)) {
 			// An Int is handed on as an int32 and a Float as a float32, a
 			// method is free to take an int, int64 or a float64 instead.
-			if widens(a.Type(), mt.In(i)) {
-				args[i] = a.Convert(mt.In(i))
+			if widens(a.Type(), in(i)) {
+				args[i] = a.Convert(in(i))
 				continue
 			}
-			return fmt.Errorf("argument %d, a %s can not be used as a %s", i, a.Type(), mt.In(i))
+			return fmt.Errorf("argument %d, a %s can not be used as a %s", i, a.Type(), in(i))
 		}
 	}
 	return nil
